@@ -195,13 +195,14 @@ type c02ExecChain struct {
 	hashed []string
 	polls  map[uint64]int
 	hashOn bool
+	before map[uint64]bool // executed already when the delivery arrives
 }
 
 func (c *c02ExecChain) isExecuted(p *transfer.TransferProposal) (bool, error) {
 	c.mu.Lock()
 	defer c.mu.Unlock()
 	if !c.hashOn {
-		return false, nil
+		return c.before[p.Data.DepositNonce], nil
 	}
 	c.polls[p.Data.DepositNonce]++
 	return true, nil
@@ -306,7 +307,8 @@ func init() {
 		return "closed" + caller
 	}
 
-	// execwatch <evm|sub> <cap> <transfer gas> <per-proposal gas metadata g0,g1,… (n = none)>
+	// execwatch <evm|sub> <cap> <transfer gas> <per-proposal gas metadata g0,g1,… (n = none; suffix e = already executed when
+	//   the delivery arrives, e.g. n,40e,n)>
 	//   => H=<hashed batches, sorted, ';'>|polls=<nonce:count,…>|ret=<nil|err>
 	ops["C02.execwatch"] = func(a []string) string {
 		store := keyshare.NewECDSAKeyshareStore(repoRoot() + "/tss/test/keyshares/0.keyshare")
@@ -318,7 +320,12 @@ func init() {
 		co := tss.NewCoordinator(h, cm, &elector.CoordinatorElectorFactory{}) // only the static elector is reached
 		co.TssTimeout, co.CoordinatorTimeout, co.InitiatePeriod = time.Hour, time.Hour, time.Hour
 		props := []*proposal.Proposal{}
+		ch := &c02ExecChain{polls: map[uint64]int{}, before: map[uint64]bool{}}
 		for i, gs := range items(a[3], ",") {
+			if strings.HasSuffix(gs, "e") {
+				gs = strings.TrimSuffix(gs, "e")
+				ch.before[uint64(i)] = true
+			}
 			md := map[string]interface{}{}
 			if gs != "n" {
 				md["gasLimit"] = u64(gs)
@@ -327,7 +334,6 @@ func init() {
 				DepositNonce: uint64(i), Metadata: md, Data: []byte{byte(i)},
 			}, "m", transfer.TransferProposalType))
 		}
-		ch := &c02ExecChain{polls: map[uint64]int{}}
 		done := make(chan error, 1)
 		if a[0] == "evm" {
 			old := evmexec.VerifC02SetCheckPeriod(time.Millisecond)
@@ -503,11 +509,29 @@ func genC02Seq(g *G) {
 				g.Emit("execwatch", kind, "100", "60", x+","+y)
 			}
 		}
+		// partially executed deliveries: every executed/pending pattern over 1..3 proposals
+		for n := 1; n <= 3; n++ {
+			for m := 0; m < 1<<uint(n); m++ {
+				xs := []string{}
+				for j := 0; j < n; j++ {
+					x := []string{"n", "41"}[(m+j)%2]
+					if m>>uint(j)&1 == 1 {
+						x += "e"
+					}
+					xs = append(xs, x)
+				}
+				g.Emit("execwatch", kind, "100", "60", strings.Join(xs, ","))
+			}
+		}
 		for i := 0; i < g.Count(40, 1500); i++ {
 			n := 3 + g.Intn(4)
 			xs := []string{}
 			for j := 0; j < n; j++ {
-				xs = append(xs, g.Pick(gasAlpha))
+				x := g.Pick(gasAlpha)
+				if g.Intn(4) == 0 {
+					x += "e"
+				}
+				xs = append(xs, x)
 			}
 			c := []string{"100", "100", "1000", "130", "18446744073709551615"}[g.Intn(5)]
 			g.Emit("execwatch", kind, c, "60", strings.Join(xs, ","))
@@ -538,4 +562,5 @@ func genC02Seq(g *G) {
 		}
 		g.Emit("bseq", kind, chain, hx(g.Bytes(20)), hx(g.Bytes(20)), strings.Join(st, ","), c02RandProps(g, 3)+"/"+c02RandProps(g, 4)+"/"+c02RandProps(g, 2))
 	}
+	genC02Sign(g)
 }
